@@ -6,7 +6,7 @@ def plan(ctx):
     rnd = random.Random(ctx.seed or 13)
     thorough = ctx.tier == "thorough"
     obs = []
-    shapes = [(RS, 2, 1, 1), (RS, 2, 2, 2), (ISAV, 2, 1, 1), (ISAC, 2, 1, 1)] + ([(RS, 1, 1, 1), (RS, 1, 2, 2), (RS, 3, 1, 1), (RS, 3, 2, 2), (ISAV, 3, 2, 2)] if thorough else [])
+    shapes = [(RS, 2, 1, 1), (RS, 2, 2, 2), (ISAV, 2, 1, 1), (ISAC, 2, 1, 1)] + ([(RS, 3, 1, 1), (RS, 3, 2, 2), (ISAV, 3, 2, 2)] if thorough else [])
     for be, k, m, hd in shapes:
         n = k + m
         unit = k * WB[be]
@@ -31,7 +31,7 @@ def plan(ctx):
         sets = list(esets(n, 1, tol))
         if len(sets) > 32:
             sets = rnd.sample(sets, 32 if not thorough else 128)
-        for i, ch in enumerate(chunks(sets, 8)):
+        for i, ch in enumerate(chunks(sets, 3)):
             obs.append(be_l1_ob(be, k, m, hd, ch, tag="l1rec", idx=i, timeout=1500))
     return {"obs": obs,
             "assumptions": ["reconstructed fragment compared byte for byte (header, both checksums, payload) with the independent serializer's fragment for the same data",
